@@ -225,8 +225,13 @@ func (h *dnsCryptHandler) ServeDNS(rw dnscrypt.ResponseWriter, r *dns.Msg) (err 
 	nrw := NewNonWriterResponseWriter(rw.LocalAddr(), rw.RemoteAddr())
 	written := h.srv.serveDNSMsg(ctx, r, nrw)
 	if !written {
-		// If there was no response from the handler, return SERVFAIL.
-		return rw.WriteMsg(genErrorResponse(r, dns.RcodeServerFailure))
+		// If there was no response from the handler, return SERVFAIL.  Normalize
+		// it like any other response, so that a query with an OPT record gets
+		// one back.
+		resp := genErrorResponse(r, dns.RcodeServerFailure)
+		normalize(NetworkFromAddr(rw.LocalAddr()), ProtoDNSCrypt, r, resp, dns.MaxMsgSize)
+
+		return rw.WriteMsg(resp)
 	}
 
 	network := NetworkFromAddr(rw.LocalAddr())
